@@ -5,7 +5,7 @@ PROP = "C18"
 ENGINE = "path"
 LEAN_MODULES = ["RtoscModel.Props.C18"]
 THEOREMS = ["Rtosc.Path.collapse_eq_spec", "Rtosc.Path.collapse_in_place",
-            "Rtosc.Path.apropos_of_walked",
+            "Rtosc.Path.apropos_of_walked", "Rtosc.Path.apropos_of_walked_local", "Rtosc.Path.index_spec",
             "Rtosc.Path.search_children", "Rtosc.Path.search_sorted", "Rtosc.Path.search_unique_prefix",
             "Rtosc.Path.search_reply_wf"]
 HARNESS = {"src": ["path.cpp"]}
@@ -20,6 +20,8 @@ RULE = ("collapse: every absolute path of 1..8 distinct components with '..' at 
         "non-trivial: collapse with at least one '..'; lookup in a tree with >= 3 ports; search over >= 2 rows. "
         "distinct = distinct op line")
 ASSUMPTIONS = ["port names are literal (no { * #), NUL-free and non-empty; a port with a sub-table has a name ending in '/'",
+               "generated port names use bytes 1..126 only: Ports::refreshMagic (find_assoc/do_hash, C04's hashing) indexes a "
+               "127-entry table with the name's char, so other bytes are undefined behaviour before any C18 function runs",
                "lookup of a walked address: no other row of a table on the way is a prefix of, or prefixed by, the row taken "
                "(names compared up to ':')",
                "non-empty metadata blocks end with the first double NUL (what the rtosc macros produce)",
@@ -489,6 +491,46 @@ def gen_search(rng, tier, stats):
                                                      max_ports, bufsize, e)
 
 
+FLAT_NAMES = [b"a/", b"a/", b"a/b", b"a/b/", b"a/b/c", b"a/bc", b"a", b"ab", b"ab/", b"ab/c", b"b", b"b2", b"c/d/",
+              b"c/d/e:", b"a/:", b"a/x:i", b"a0", b"a.", b"a/b/c/d", b"b/", b"b/b", b"B", b"~/", b"~/x", b"~", b"+", b"+/", b"+/-"]
+
+
+def gen_search_flat(rng, tier, stats):
+    """one table, searched at the root: duplicate names, chains of `name/` prefixes, every metadata length"""
+    st = stats["search"]
+    st.setdefault("flat_tables", 0)
+    n = 500 if tier == "quick" else 20000
+    for _ in range(n):
+        k = rng.randint(1, 9)
+        tree = [Port(rng.choice(FLAT_NAMES), rand_meta(rng, st), None) for _ in range(k)]
+        ts = show_tree(tree)
+        st["flat_tables"] += 1
+        for opt in (0, 1, 2):
+            query = rng.random() < 0.4
+            r = rng.random()
+            needle = b"" if r < 0.45 else (None if r < 0.5 else rng.choice([b"a", b"a/", b"a/b", b"b", b"c/", b"ab"]))
+            s = rng.choice([b"", b"/"])
+            _, nfound, mlen = expected_search(tree, s, needle, opt, query, 1 << 30)
+            ncoll = len(search_spec(tree, needle or b"", 0))
+            need = max(1, ncoll + (1 if query else 0))
+            max_ports = need if rng.random() < 0.5 else need + rng.randint(1, 4)
+            r2 = rng.random()
+            bufsize = mlen if r2 < 0.3 else (mlen - rng.choice([1, 3, 4]) if r2 < 0.4 else mlen + rng.randint(1, 40))
+            st["queries"] += 1
+            st["root"] += 1
+            st["opt_hist"][str(opt)] += 1
+            st["with_query"] += query
+            st["null_needle"] += needle is None
+            st["found_hist"][str(nfound)] = st["found_hist"].get(str(nfound), 0) + 1
+            names = [p.name for p in search_spec(tree, needle or b"", 0)]
+            if len(set(names)) < len(names):
+                st["dup_name_results"] += 1
+            if opt == 2 and nfound < ncoll:
+                st["prefix_filtered"] += 1
+            yield "S %s %s %s %d %d %d %d R" % (ts, hx(s), "N" if needle is None else hx(needle), opt, int(query),
+                                                 max_ports, bufsize)
+
+
 def oracle_search(w, out):
     e = w[8] if len(w) > 8 else "E=?"
     if e == "E=?":
@@ -508,7 +550,8 @@ def oracle_search(w, out):
 
 # ------------------------------------------------------------------ entry points
 def generate(rng, tier, stats):
-    gens = [gen_collapse(rng, tier, stats), gen_lookup(rng, tier, stats), gen_search(rng, tier, stats)]
+    gens = [gen_collapse(rng, tier, stats), gen_lookup(rng, tier, stats), gen_search(rng, tier, stats),
+            gen_search_flat(rng, tier, stats)]
     for g in gens:
         for op in g:
             yield op
@@ -527,6 +570,8 @@ def nontrivial(op):
 
 def oracle(op, out):
     w = op.split()
+    if not w:
+        return None
     if out.startswith("crash") and w[0] == "C":
         return "collapsePath crashed: " + out
     if w[0] == "C":
@@ -536,3 +581,53 @@ def oracle(op, out):
     if w[0] == "S":
         return oracle_search(w, out)
     return None
+
+
+def main(argv):
+    """vlib.main, except that a build which makes the harness die on more than 200 inputs (vlib gives up with an
+    exception) is reported as what it is: a violation, with the first crashing input as replay."""
+    import os
+    import random
+    import shutil
+    import sys
+    import vlib
+    mod = sys.modules[__name__]
+    try:
+        return vlib.main(mod, argv)
+    except RuntimeError as e:
+        if "crashes on more than" not in str(e):
+            raise
+    seed = int(os.environ.get("VERIF_SEED", "1"))
+    for i, a in enumerate(argv):
+        if a == "--seed" and i + 1 < len(argv):
+            seed = int(argv[i + 1])
+    exe = vlib.build_harness(ENGINE, HARNESS)
+    ops = []
+    corpus = os.path.join(vlib.VERIF, "corpus", PROP + ".ops")
+    if os.path.exists(corpus):
+        ops = [l.strip() for l in open(corpus) if l.strip() and not l.startswith("#")]
+    ops += list(generate(random.Random(seed * 1000003 + 17), "quick", {}))
+    wd = os.path.join(vlib.BUILD, "run-%s-crash-%d" % (PROP, os.getpid()))
+    os.makedirs(wd, exist_ok=True)
+    try:
+        for k in range(0, len(ops), 150):
+            chunk = ops[k:k + 150]
+            outs = vlib.run_harness(exe, chunk, wd, "crash")
+            for op, out in zip(chunk, outs):
+                f = oracle(op, out)
+                if f is not None:
+                    try:
+                        model = vlib.run_driver(ENGINE, [op], wd, "crash")[0]
+                    except Exception:
+                        model = None
+                    path = vlib.write_replay(PROP, "input", {"property": PROP, "kind": "failing-input", "ops": [op], "impl": out,
+                                                             "model": model, "failure": f, "seed": seed,
+                                                             "note": "the harness dies on more than 200 generated inputs"})
+                    print("VIOLATION property=%s replay=%s" % (PROP, path))
+                    return 1
+    finally:
+        shutil.rmtree(wd, ignore_errors=True)
+    path = vlib.write_replay(PROP, "nofail", {"property": PROP, "kind": "no-failing-input-found", "seed": seed,
+                                              "note": "the harness dies on more than 200 generated inputs"})
+    print("VIOLATION property=%s replay=%s no-failing-input-found" % (PROP, path))
+    return 1
